@@ -46,8 +46,9 @@ def in_context(ctx, body):
 ATTACH = ['', ' ', '  ', '\t', '\n', ' \n', '\n ', ' \t\n\t ']
 DETACH = ['\n\n', ' \n \n ', '.', ', ', '%c\n', '\\\\', '1', '~', '\x0b', '\x0c', '\xa0']
 GROUP_BODIES = {
-    'Bracket': ['o', '', 'a b', '{]}', '\\y{z}', '(', '{[}x'],
-    'Brace': ['r', '', 'a]b', 'a[b', '[', ']', '\\y[z]', '{n}', '$m$', '[x]', ')('],
+    'Bracket': ['o', '', 'a b', '{]}', '\\y{z}', '(', '{[}x', '{a} {b}', ' '],
+    'Brace': ['r', '', 'a]b', 'a[b', '[', ']', '\\y[z]', '{n}', '$m$', '[x]', ')(', '] [', '{x} {y}', ' ',
+              'a {b} [c] d'],
 }
 
 
@@ -73,6 +74,12 @@ def _c09_chunk(cases):
         if got != want:
             r.fail(Failure('C09', 'arguments', src, got, want,
                            opts={'context': ctxname, 'command': name}))
+            continue
+        # the documented accessor of a group's contents says the same
+        strs = [str(a.string) for a in node.expr.args]
+        if strs != [b for _, b in want]:
+            r.fail(Failure('C09', 'arguments', src, strs, [b for _, b in want],
+                           opts={'context': ctxname, 'command': name, 'via': '.string'}))
             continue
         # what follows the command in the output is the rest of the input
         rest = ''.join(sep + ('{%s}' if k == 'Brace' else '[%s]') % b
@@ -308,7 +315,10 @@ def verb_bodies(rng, n, name):
            # the end marker is `\end{name}` exactly: an \end of an environment
            # whose name merely starts with this one does not close it
            'x \\end{%s*} y' % name, 'x\\begin{%sx}z\\end{%sx}' % (name, name), '\\end{%s ' % name,
-           'x\\end{%s' % name + 'tab} y']
+           'x\\end{%s' % name + 'tab} y',
+           # other line-end conventions: a comment on an EARLIER line (ended by
+           # CR or CR LF) does not reach the closing \\end
+           'x = 1 % set x {\ry = 2\r', 'a % c\r\nb\r\n', '\rx\r']
     for _ in range(n):
         b = rng.choice(['x', '.', '\nx', 'x ']) + ''.join(
             rng.choice(gen.HOSTILE_VERB + ['\\hidden{q}']) for _ in range(rng.randint(1, 7)))
@@ -434,7 +444,9 @@ def math_bodies(rng, n):
            # group is read without the math mode, the operator must still not
            # take the bracket as an argument
            '\\bigcup_{t \\in [0,1)} A_t', 'y^{a \\cup[b} + 1', '{x \\in [0,1)}', '\\sum_{i \\notin ]a,b[} x_i',
-           '{\\infty]}', 'z_{\\cap(}']
+           '{\\infty]}', 'z_{\\cap(}',
+           # commands with three or more groups, some textually equal
+           '\\genfrac{}{}{0pt}{}{n}{k}', '\\foo{a}{a}{b}', '\\mathchoice{\\alpha}{\\alpha}{b}{c}', '\\sideset{}{}{\\sum}']
     for s in SIZERS:
         for d in DELIMS:
             out.append('\\%s%s x' % (s, d))
